@@ -282,6 +282,7 @@ def guard_forms(rng, ops):
             fitted = True
         elif op == "tune_fail":
             forms.append(rng.pick(["raise", "raise", "noy_train", "noy_val"]))
+            fitted = True          # a tune() that need not raise may have fitted the model: no "nodir" save afterwards
         elif op == "predict":
             forms.append(rng.pick(["pos", "kw"]))
         elif op == "save":
